@@ -42,7 +42,20 @@ fn check_method(m: &MDesc, len: u64, class: usize, seed: u64, nchunkings: usize,
 	let mut rng = Rng::new(seed ^ len << 20 ^ class as u64);
 	let par = params_for(m, len, &mut rng);
 	let n_steps = 300usize.min(80 + 3 * len as usize);
-	let xs = stream_for(m, class, seed, n_steps, len as usize);
+	let mut nonfinite = false;
+	let mut xs = stream_for(m, class, seed, n_steps, len as usize);
+	// every fifth case of the methods that do not assert finiteness carries a few NaN / infinite inputs: the batch APIs must
+	// still do exactly what element-wise next does (they are not entitled to validate the sequence first)
+	if seed % 5 == 0 && matches!(m.name, "Past" | "EMA" | "DMA" | "TMA" | "DEMA" | "TEMA" | "RMA" | "WSMA" | "SMA" | "WMA" | "Momentum" | "Derivative" | "Integral" | "TRIMA" | "SWMA") {
+		for _ in 0..3 {
+			let j = 1 + rng.below(xs.len() as u64 - 1) as usize;
+			if let In::V(v) = &mut xs[j] {
+				*v = *rng.pick(&[V::NAN, V::INFINITY, V::NEG_INFINITY]);
+			}
+		}
+		r.cell("stream:with-non-finite-inputs");
+		nonfinite = true;
+	}
 	let init = xs[0].clone();
 	let case = |what: &str| json!({"method": m.name, "params": par.show(), "stream_class": class, "seed": seed, "len": len, "what": what, "first_inputs": show_ins(&xs[..xs.len().min(12)])});
 	let res = guard(|| {
@@ -91,7 +104,7 @@ fn check_method(m: &MDesc, len: u64, class: usize, seed: u64, nchunkings: usize,
 				r.violate(&format!("{key}|output-count"), "not exactly one output per input", || json!({"case": case(bt.api), "outputs": bt.out.len(), "inputs": xs.len(), "chunks": chunks}));
 				continue;
 			}
-			if let Some(i) = (0..xs.len()).find(|&i| !bt.out[i].same(&rf[i])) {
+			if let Some(i) = (0..xs.len()).find(|&i| if nonfinite { !bt.out[i].same_num(&rf[i]) } else { !bt.out[i].same(&rf[i]) }) {
 				r.violate(&format!("{key}|differs-from-next"), "batch/wrapper API differs from element-wise next", || json!({"case": case(bt.api), "step": i, "got": bt.out[i].show(), "expected": rf[i].show(), "chunks": chunks}));
 			}
 			r.cell(&format!("api:{}", bt.api));
@@ -104,7 +117,7 @@ fn check_method(m: &MDesc, len: u64, class: usize, seed: u64, nchunkings: usize,
 			for (i, x) in xs.iter().enumerate() {
 				let o = inst.next(x);
 				let p = inst.peek().unwrap();
-				if !p.same(&o) && bad.is_none() {
+				if !(if nonfinite { p.same_num(&o) } else { p.same(&o) }) && bad.is_none() {
 					bad = Some((i, o, p));
 				}
 			}
@@ -143,7 +156,7 @@ fn check_method(m: &MDesc, len: u64, class: usize, seed: u64, nchunkings: usize,
 		match res {
 			Ok(Some(got)) => {
 				r.eval(got.len() as u64);
-				if let Some(i) = (0..got.len()).find(|&i| !got[i].same(&r0[k + i])) {
+				if let Some(i) = (0..got.len()).find(|&i| if nonfinite { !got[i].same_num(&r0[k + i]) } else { !got[i].same(&r0[k + i]) }) {
 					r.violate(&format!("C09|{}|clone-not-independent", m.name), "a clone does not continue like an instance that saw the same history", || json!({"case": case("clone"), "clone_point": k, "step": k + i}));
 				}
 				r.cell("clone");
